@@ -808,6 +808,83 @@ func emitString(w *strings.Builder, name, s string) {
 	w.WriteString("]\n")
 }
 
+// emitLits emits, for one function, the integer literals (in source order, as written, constant-folded per literal
+// expression such as 1<<10) and the string/char literals that occur in its body.  Hand-written models that copy such
+// literals (thresholds, suffix lists) state `tie_…` theorems against these regenerated lists.
+func emitLits(w *strings.Builder, p *pkgInfo, recv, name string) {
+	fd := findFunc(p, recv, name)
+	full := name
+	if recv != "" {
+		full = recv + "_" + name
+	}
+	if fd == nil {
+		die(3, "cannot translate %s.%s: function not found", p.name, full)
+	}
+	var ints []string
+	var strs []string
+	var visit func(n ast.Node) bool
+	visit = func(n ast.Node) bool {
+		switch x := n.(type) {
+		case *ast.BinaryExpr:
+			// a constant-valued shift/arith of literals counts as one literal (e.g. 1<<10)
+			if tv, ok := p.info.Types[x]; ok && tv.Value != nil && onlyLits(x) {
+				if v := constant.ToInt(tv.Value); v.Kind() == constant.Int {
+					ints = append(ints, v.ExactString())
+					return false
+				}
+			}
+		case *ast.BasicLit:
+			tv := p.info.Types[x]
+			switch x.Kind {
+			case token.INT:
+				if tv.Value != nil {
+					ints = append(ints, constant.ToInt(tv.Value).ExactString())
+				}
+			case token.STRING:
+				if tv.Value != nil {
+					strs = append(strs, constant.StringVal(tv.Value))
+				}
+			case token.CHAR:
+				if tv.Value != nil {
+					if v, ok := constant.Int64Val(constant.ToInt(tv.Value)); ok && v < 256 {
+						strs = append(strs, string([]byte{byte(v)}))
+					}
+				}
+			}
+		}
+		return true
+	}
+	ast.Inspect(fd.Body, visit)
+	fmt.Fprintf(w, "\n/-- integer literals of %s.%s in source order -/\ndef %s_%s_ints : List Int := [%s]\n", p.name, full, p.name, full, strings.Join(ints, ", "))
+	fmt.Fprintf(w, "/-- string and character literals of %s.%s in source order (as byte lists) -/\ndef %s_%s_strs : List (List Nat) := [", p.name, full, p.name, full)
+	for i, s := range strs {
+		if i > 0 {
+			w.WriteString(", ")
+		}
+		w.WriteString("[")
+		for j := 0; j < len(s); j++ {
+			if j > 0 {
+				w.WriteString(", ")
+			}
+			fmt.Fprintf(w, "%d", s[j])
+		}
+		w.WriteString("]")
+	}
+	w.WriteString("]\n")
+}
+
+func onlyLits(e ast.Expr) bool {
+	switch x := e.(type) {
+	case *ast.BasicLit:
+		return x.Kind == token.INT
+	case *ast.ParenExpr:
+		return onlyLits(x.X)
+	case *ast.BinaryExpr:
+		return onlyLits(x.X) && onlyLits(x.Y)
+	}
+	return false
+}
+
 func main() {
 	if len(os.Args) != 3 {
 		die(2, "usage: translate <repo> <outdir>")
@@ -856,6 +933,36 @@ func main() {
 	emitFunc(&s, wire, "", "isInvalidUTF8")
 	s.WriteString("\nend JsonV.Gen\n")
 	write(filepath.Join(out, "Straight.lean"), s.String())
+
+	var l strings.Builder
+	l.WriteString(header)
+	l.WriteString("namespace JsonV.Gen\n")
+	emitLits(&l, text, "objectNamespace", "insert")
+	emitLits(&l, text, "objectNamespace", "reset")
+	emitLits(&l, text, "objectNameStack", "reset")
+	emitLits(&l, text, "stateMachine", "reset")
+	emitLits(&l, text, "encoderState", "avoidFlush")
+	emitLits(&l, text, "encoderState", "UnwriteEmptyObjectMember")
+	emitLits(&l, text, "encoderState", "UnwriteOnlyObjectMemberName")
+	emitLits(&l, text, "encoderState", "NeedFlush")
+	emitLits(&l, text, "encoderState", "Flush")
+	emitLits(&l, text, "decoderState", "fetch")
+	emitLits(&l, wire, "", "ParseUint")
+	emitLits(&l, wire, "", "AppendFloat")
+	emitLits(&l, wire, "", "ReformatNumber")
+	emitLits(&l, wire, "", "ConsumeWhitespace")
+	emitLits(&l, wire, "", "ConsumeSimpleString")
+	emitLits(&l, wire, "", "appendEscapedASCII")
+	emitLits(&l, wire, "", "hasEscapedUTF16Prefix")
+	emitLits(&l, root, "", "makeString")
+	emitLits(&l, root, "uintSet", "insert")
+	emitLits(&l, root, "uintSet", "has")
+	emitLits(&l, root, "", "appendDurationBase10")
+	emitLits(&l, root, "", "appendTimeUnix")
+	emitLits(&l, root, "", "negateSecNano")
+	emitLits(&l, root, "", "appendFoldedName")
+	l.WriteString("\nend JsonV.Gen\n")
+	write(filepath.Join(out, "Lits.lean"), l.String())
 }
 
 func write(path, content string) {
